@@ -2,6 +2,7 @@ package ch
 
 import (
 	"context"
+	"net"
 
 	"github.com/go-faster/errors"
 	"go.opentelemetry.io/otel/trace"
@@ -55,8 +56,20 @@ func (c *Client) handshake(ctx context.Context) error {
 		}
 
 		verifGate("handshake.afterHelloWrite")
-		code, err := c.packet(ctx)
-		if err != nil {
+		var code proto.ServerCode
+		for {
+			// Server hello is awaited until the handshake timeout (context
+			// deadline), which can be much longer than single packet read
+			// timeout, so retrying.
+			var err error
+			code, err = c.packet(ctx)
+			if err == nil {
+				break
+			}
+			var opErr *net.OpError
+			if errors.As(err, &opErr) && opErr.Timeout() && ctx.Err() == nil {
+				continue
+			}
 			return errors.Wrap(err, "packet")
 		}
 		if code == proto.ServerCodeException {
